@@ -1560,7 +1560,7 @@ def section_qfactor_contract(R: Run):
         ('state-target', [2], [('VU1', (0,))], 'S'),
         ('statesystem-target', [2], [('VU1', (0,))], 'Y'),
         ('U3Gate', [2], [('U3', (0,))], 'U'),
-        ('VariableUnitaryGate', [2, 3], [('VU23', (0, 1))], 'U'),
+        ('VariableUnitaryGate', [2], [('VU1', (0,))], 'U'),
     ]
     for label, radixes, ops, kind in probes:
         circuit = build_circuit(radixes, ops)
